@@ -11,6 +11,9 @@ import (
 	"verif/harness/progen"
 )
 
+// Opts selects exclusions by construction of known findings; set by the test.
+var Opts struct{ NoConcurrentAddressOf bool }
+
 type gen struct {
 	*progen.G
 	imports    map[string]bool
@@ -306,23 +309,32 @@ func (g *gen) snippet() string {
 		n := g.Int(1, 8, "n")
 		g.goroutines += n
 		g.Tag("once-atomic")
+		// F-C10-1: taking the address of a captured integer variable from several goroutines
+		// at once is a data race inside gomacro; while it is a known finding the address is
+		// taken once, before the goroutines start
+		addr := "&hits"
+		if Opts.NoConcurrentAddressOf {
+			addr = "ph"
+			g.Tag("excluded-shape:F-C10-1")
+		}
 		return fmt.Sprintf(`{
 	var once sync.Once
 	var wg sync.WaitGroup
 	var hits int32
+	ph := &hits
 	inits := 0
 	for i := 0; i < %d; i++ {
 		wg.Add(1)
 		go func() {
 			defer wg.Done()
 			once.Do(func() { inits++ })
-			atomic.AddInt32(&hits, 2)
+			atomic.AddInt32(%s, 2)
 		}()
 	}
 	wg.Wait()
-	rec.E(%d, inits, atomic.LoadInt32(&hits))
+	rec.E(%d, inits, atomic.LoadInt32(ph))
 }
-`, n, ev)
+`, n, addr, ev)
 	default: // buffered channel as semaphore, close + range, cap/len
 		g.imp("sync")
 		n := g.Int(1, 8, "n")
